@@ -15,6 +15,8 @@
 -/
 import YV.Proofs.YLex
 import YV.Proofs.YTotal
+import YV.Gen.Parse
+import YV.Model.YTables
 namespace YV.C07
 open YV YV.Y
 
@@ -56,5 +58,11 @@ def asc (s : String) : Bytes := s.toList.map Char.toNat
 theorem C07_unrepaired_diverges : lex false (asc "module") = none := by decide
 
 example : (lex true (asc "a b;")).isSome = true := by decide
+
+/-- **C07 (the stack).** The statement parser recurses once per level of nesting and once per '+' piece; the model is a
+    fuelled function and has no stack to exhaust.  What keeps the code's recursion bounded are two constants of
+    parse/parse.go: they are there (regenerated on every run; their absence is a failed extraction) and they are the
+    values the driver predicts stream ydeep with. -/
+theorem C07_recursion_bounds_are_source : Gen.parseLimits = YT.parseLimits := by decide
 
 end YV.C07
